@@ -167,7 +167,10 @@ impl Token for SnapTokenClaims {
     }
 
     fn exp_time(&self) -> SystemTime {
-        SystemTime::UNIX_EPOCH + std::time::Duration::from_secs(self.exp)
+        // Saturate at the year 9999 so that an absurdly large `exp` does not overflow (and panic in)
+        // the time arithmetic.
+        SystemTime::UNIX_EPOCH
+            + std::time::Duration::from_secs(self.exp.min(crate::MAX_EXP_SECS))
     }
 
     fn required_claims() -> Vec<&'static str> {
